@@ -215,6 +215,9 @@ func RunCheck(c *Check, rc *RunCtx) int {
 		if rc.Tier == "thorough" {
 			bound = s.ThoroughBound
 		}
+		if bound < 0 {
+			continue // scenario not part of this tier
+		}
 		scn := s
 		ex := &xplor.Explorer{Bound: bound, Workers: rc.Workers, Scenario: scn.Fn, Deadline: rc.Deadline}
 		res := ex.Explore()
